@@ -18,7 +18,7 @@ class FloatPrecision:
     def is_inf(self) -> bool:
         if self.value == 0:
             return False
-        return self.exponent > self.max_exp
+        return self.exponent + self.precision - 3 > self.max_exp
 
     @property
     def mantissa(self) -> int:
